@@ -165,6 +165,50 @@ func init() {
 					hs = append(hs, handle{kind: "bucket", bks: bks})
 				}
 			}
+			// concurrent allocation: the size measurement of Allocate* goes through one shared counting transport
+			if ci%3 == 1 {
+				const G, per = 8, 60
+				extra := make([][]handle, G)
+				var wg sync.WaitGroup
+				start := make(chan struct{})
+				for g := 0; g < G; g++ {
+					g := g
+					wg.Add(1)
+					go func() {
+						defer wg.Done()
+						<-start
+						for i := 0; i < per; i++ {
+							name := fmt.Sprintf("c%d_%d_%s", g, i, strings.Repeat("x", (g*7+i*13)%90))
+							tags := map[string]string{}
+							for t := 0; t < (g+i)%4; t++ {
+								tags[fmt.Sprintf("t%d", t)] = strings.Repeat("v", 1+(i*3+t)%17)
+							}
+							switch (g + i) % 3 {
+							case 0:
+								extra[g] = append(extra[g], handle{kind: "counter", h: rep.AllocateCounter(name, tags)})
+							case 1:
+								extra[g] = append(extra[g], handle{kind: "gauge", h: rep.AllocateGauge(name, tags)})
+							default:
+								extra[g] = append(extra[g], handle{kind: "timer", h: rep.AllocateTimer(name, tags)})
+							}
+						}
+					}()
+				}
+				close(start)
+				wg.Wait()
+				for g := 0; g < G; g++ {
+					for _, h := range extra[g] {
+						switch h.kind {
+						case "counter":
+							h.h.(tally.CachedCount).ReportCount(math.MaxInt64)
+						case "gauge":
+							h.h.(tally.CachedGauge).ReportGauge(-math.MaxFloat64)
+						case "timer":
+							h.h.(tally.CachedTimer).ReportTimer(time.Duration(math.MinInt64))
+						}
+					}
+				}
+			}
 			nrep := 40 + rng.Intn(160)
 			if thorough && ci%40 == 39 {
 				nrep = 5000
